@@ -181,8 +181,10 @@ class Seq:
 
 @dataclass(frozen=True, eq=False)
 class SymStr:
-    """A str/String whose bytes may be symbolic (digit strings).  Always valid UTF-8 by construction or obligation."""
+    """A str/String whose bytes may be symbolic (digit strings).  Always valid UTF-8 by construction or obligation.
+    parts: the pieces it was formatted from (kept until the first merge), so that "int.frac" can be parsed exactly."""
     seq: Seq
+    parts: Any = None
 
 
 @dataclass(frozen=True, eq=False)
